@@ -1,6 +1,8 @@
 (* C04 — approximate search is sound: only live, matching, correctly ranked results. *)
 From Coq Require Import ZArith Floats List Sorting.Sorted.
 From Syz Require Import Quant Dist Search Lsh FloatOrder ApproxProofs HeapPerm ApproxNonEmpty ApproxSingleLeaf.
+(* the tables of the model are the ones regenerated from the Go sources on this run *)
+From Syz Require GenTablesOk.
 Open Scope Z_scope.
 
 (* For EVERY forest (it need not even satisfy the index invariant), every query, K, radius, filter
